@@ -6,6 +6,9 @@ import (
 	"reflect"
 	"sort"
 	"strings"
+	"sync"
+	modelv1 "verifharness/twin/model/v1"
+	wirev1 "verifharness/twin/wire/v1"
 
 	"github.com/vimeo/dials"
 	"github.com/vimeo/dials/ptrify"
@@ -26,7 +29,7 @@ func init() {
 		},
 		MinDistinct: map[string]int{"quick": 5000, "thorough": 200000},
 		MinCounters: map[string]map[string]int64{
-			"quick":    {"cases_with_one_layer_object_listed_twice": 2000, "default_pointer_leaves_sharing_a_pointee": 150, "static_cases_with_defaults_sharing_a_pointee": 1500, "leaves_compared": 100000, "cases_with_skipped_field_between_set_leaves": 1500, "metamorphic_empty_layer_checks": 3000, "static_corpus_cases": 200},
+			"quick":    {"cases_with_one_layer_object_listed_twice": 2000, "default_pointer_leaves_sharing_a_pointee": 150, "static_cases_with_defaults_sharing_a_pointee": 1500, "watcher_updates_compared": 4000, "leaves_compared": 100000, "cases_with_skipped_field_between_set_leaves": 1500, "metamorphic_empty_layer_checks": 3000, "static_corpus_cases": 200},
 			"thorough": {"leaves_compared": 5000000},
 		},
 		Plan: func(tier string) fw.Plan {
@@ -126,6 +129,14 @@ func runC01(w *fw.Worker) {
 	w.Cases(func(i int, r *fw.Rand) {
 		if i%20 == 19 {
 			c01StaticCase(w, i, r)
+			return
+		}
+		if i%20 == 9 {
+			c01Watchers(w, i, r)
+			return
+		}
+		if i%40 == 3 {
+			c01Homonyms(w, i, r)
 			return
 		}
 		spec := gen.RandomSpec(r, c01Opts(w, r))
@@ -546,4 +557,241 @@ func (s c01SrcNamed) Value(_ context.Context, t *dials.Type) (reflect.Value, err
 		panic(fmt.Sprintf("harness: cannot place %s into %s (%s)", sv.Type(), dv.Type(), name))
 	}
 	return out, nil
+}
+
+// ---- precedence after updates from watching sources (public API)
+
+type c01Live struct {
+	A string
+	B string
+	C int
+	D *int
+}
+
+type c01LiveSrc struct {
+	mu  sync.Mutex
+	cur [4]any // nil = unset; A,B string; C int; D int
+	wa  dials.WatchArgs
+	typ *dials.Type
+}
+
+func (s *c01LiveSrc) value(t reflect.Type, cur [4]any) reflect.Value {
+	v := reflect.New(t).Elem()
+	for k, name := range []string{"A", "B", "C", "D"} {
+		if cur[k] == nil {
+			continue
+		}
+		p := reflect.New(reflect.TypeOf(cur[k]))
+		p.Elem().Set(reflect.ValueOf(cur[k]))
+		v.FieldByName(name).Set(p)
+	}
+	return v
+}
+
+func (s *c01LiveSrc) Value(_ context.Context, t *dials.Type) (reflect.Value, error) {
+	s.mu.Lock()
+	defer s.mu.Unlock()
+	return s.value(t.Type(), s.cur), nil
+}
+
+func (s *c01LiveSrc) Watch(_ context.Context, t *dials.Type, wa dials.WatchArgs) error {
+	s.mu.Lock()
+	s.wa, s.typ = wa, t
+	s.mu.Unlock()
+	return nil
+}
+
+// c01Watchers: 2-4 sources, each watching or static; after Config the watching ones report new layers in a seeded order.
+// After every (blocking) report the view must equal the reference stack over each source's latest layer.
+func c01Watchers(w *fw.Worker, i int, r *fw.Rand) {
+	n := r.Range(2, 4)
+	uniq := 0
+	draw := func() [4]any {
+		var l [4]any
+		for k := range l {
+			if !r.Chance(55) {
+				continue
+			}
+			uniq++
+			switch k {
+			case 0, 1:
+				l[k] = fmt.Sprintf("v%d", uniq)
+			default:
+				l[k] = uniq
+			}
+		}
+		return l
+	}
+	srcs := make([]*c01LiveSrc, n)
+	watching := make([]bool, n)
+	dsrcs := make([]dials.Source, n)
+	type staticOnly struct{ dials.Source }
+	nW := 0
+	for k := range srcs {
+		srcs[k] = &c01LiveSrc{cur: draw()}
+		watching[k] = r.Chance(70)
+		if watching[k] {
+			nW++
+			dsrcs[k] = srcs[k]
+		} else {
+			dsrcs[k] = staticOnly{srcs[k]} // hides the Watch method
+		}
+	}
+	seven := 7
+	def := c01Live{A: "da", B: "db", C: 1, D: &seven}
+	ref := func() c01Live {
+		out := def
+		d := *def.D
+		out.D = &d
+		for _, s := range srcs {
+			for k, v := range s.cur {
+				if v == nil {
+					continue
+				}
+				switch k {
+				case 0:
+					out.A = v.(string)
+				case 1:
+					out.B = v.(string)
+				case 2:
+					out.C = v.(int)
+				case 3:
+					x := v.(int)
+					out.D = &x
+				}
+			}
+		}
+		return out
+	}
+	ctx, cancel := context.WithCancel(context.Background())
+	defer cancel()
+	d, err := dials.Config(ctx, &def, dsrcs...)
+	desc := map[string]any{"mode": "watchers", "sources": n, "watching": fmt.Sprint(watching)}
+	if err != nil {
+		w.Violation(i, "static-corpus-config-error", err.Error(), desc)
+		return
+	}
+	cmp := func(when string) bool {
+		want := ref()
+		if df := gen.Diff(reflect.ValueOf(want), reflect.ValueOf(*d.View())); df != "" {
+			w.Violation(i, "stack-differs-after-watcher-update:"+strings.SplitN(strings.TrimPrefix(df, "."), ":", 2)[0], when+": "+df, desc)
+			return false
+		}
+		w.Count("leaves_compared", 4)
+		return true
+	}
+	if !cmp("initial") {
+		return
+	}
+	if nW == 0 {
+		return
+	}
+	for step := r.Range(1, 5); step > 0; step-- {
+		k := r.Intn(n)
+		for !watching[k] {
+			k = r.Intn(n)
+		}
+		s := srcs[k]
+		l := draw()
+		s.mu.Lock()
+		s.cur = l
+		wa, t := s.wa, s.typ
+		s.mu.Unlock()
+		if rerr := wa.BlockingReportNewValue(ctx, s.value(t.Type(), l)); rerr != nil {
+			w.Violation(i, "watcher-update-failed", rerr.Error(), desc)
+			return
+		}
+		w.Count("watcher_updates_compared", 1)
+		if !cmp(fmt.Sprintf("after an update from source %d of %d", k, n)) {
+			return
+		}
+	}
+}
+
+// ---- two distinct types that print alike
+
+type c01HomWM struct {
+	Wire  wirev1.Endpoint
+	Model modelv1.Endpoint
+}
+
+type c01HomMW struct {
+	Model modelv1.Endpoint
+	Wire  wirev1.Endpoint
+}
+
+type c01HomSrc struct {
+	port     int
+	wire     *wirev1.Endpoint
+	observed string
+}
+
+func (s *c01HomSrc) Value(_ context.Context, t *dials.Type) (reflect.Value, error) {
+	v := reflect.New(t.Type()).Elem()
+	m := v.FieldByName("Model")
+	s.observed = m.Type().String()
+	if s.port != 0 {
+		// set Model.Port only, in whatever shape the field was given
+		m.Set(reflect.New(m.Type().Elem()))
+		pf := m.Elem().FieldByName("Port")
+		if pf.Kind() == reflect.Ptr {
+			pf.Set(reflect.ValueOf(&s.port))
+		} else {
+			pf.SetInt(int64(s.port))
+		}
+	}
+	if s.wire != nil {
+		wf := v.FieldByName("Wire")
+		if wf.Type() == reflect.TypeOf(s.wire) {
+			wf.Set(reflect.ValueOf(s.wire))
+		}
+	}
+	return v, nil
+}
+
+// c01Homonyms: wire/v1.Endpoint (text-unmarshalable: one value) and model/v1.Endpoint (plain struct: stacked per leaf)
+// both print as "v1.Endpoint". A layer that sets only Model.Port must leave Model.Host at its default; a layer that
+// sets Wire replaces it as a whole. Shards alternate which of the two types the process meets first.
+func c01Homonyms(w *fw.Worker, i int, r *fw.Rand) {
+	port := 1000 + r.Intn(1000)
+	src := &c01HomSrc{port: port}
+	if r.Bool() {
+		src.wire = &wirev1.Endpoint{Host: "w-new", Port: 2}
+	}
+	wantWire := wirev1.Endpoint{Host: "w-default", Port: 1}
+	if src.wire != nil {
+		wantWire = *src.wire
+	}
+	wantModel := modelv1.Endpoint{Host: "m-default", Port: port}
+	var gotWire wirev1.Endpoint
+	var gotModel modelv1.Endpoint
+	var err error
+	if w.Shard%2 == 0 {
+		var d *dials.Dials[c01HomWM]
+		d, err = dials.Config(context.Background(), &c01HomWM{Wire: wirev1.Endpoint{Host: "w-default", Port: 1}, Model: modelv1.Endpoint{Host: "m-default", Port: 9}}, src)
+		if err == nil {
+			gotWire, gotModel = d.View().Wire, d.View().Model
+		}
+	} else {
+		var d *dials.Dials[c01HomMW]
+		d, err = dials.Config(context.Background(), &c01HomMW{Wire: wirev1.Endpoint{Host: "w-default", Port: 1}, Model: modelv1.Endpoint{Host: "m-default", Port: 9}}, src)
+		if err == nil {
+			gotWire, gotModel = d.View().Wire, d.View().Model
+		}
+	}
+	desc := map[string]any{"mode": "homonymous-types", "first_field": map[bool]string{true: "Wire", false: "Model"}[w.Shard%2 == 0], "model_field_type_given_to_the_source": src.observed}
+	if err != nil {
+		w.Violation(i, "static-corpus-config-error", err.Error(), desc)
+		return
+	}
+	if gotModel != wantModel {
+		w.Violation(i, "stack-differs-from-reference:homonymous-plain-struct", fmt.Sprintf("Model: want %+v got %+v", wantModel, gotModel), desc)
+		return
+	}
+	if gotWire != wantWire {
+		w.Violation(i, "stack-differs-from-reference:homonymous-text-unmarshaler", fmt.Sprintf("Wire: want %+v got %+v", wantWire, gotWire), desc)
+		return
+	}
+	w.Count("homonymous_type_cases", 1)
+	w.Count("leaves_compared", 4)
 }
